@@ -728,6 +728,25 @@ func build(n *Node, e *Env) (z.ZogSchema, reflect.Type) {
 				}
 				return data, nil
 			}, es), et
+		// Validate-mode wrappers: the function receives a pointer to the node's value (F = *T) and its output is written back
+		case "vtrim":
+			return z.Preprocess(func(data *string, ctx z.Ctx) (string, error) {
+				e.preCall(n, data, ctx)
+				return strings.TrimSpace(*data), nil
+			}, es), et
+		case "verror":
+			return z.Preprocess(func(data *string, ctx z.Ctx) (string, error) {
+				e.preCall(n, data, ctx)
+				return "", errors.New("preprocess refused")
+			}, es), et
+		case "vmaybe":
+			return z.Preprocess(func(data *string, ctx z.Ctx) (string, error) {
+				e.preCall(n, data, ctx)
+				if strings.Contains(*data, "bad") {
+					return "", errors.New("preprocess refused")
+				}
+				return *data + "+", nil
+			}, es), et
 		case "any":
 			return z.Preprocess(func(data any, ctx z.Ctx) (any, error) {
 				e.preCall(n, data, ctx)
